@@ -474,6 +474,25 @@ func (tt *TermTable) Bin(op Op, a, b *Term) *Term {
 		}
 	}
 	switch op {
+	case OpUDiv, OpSDiv:
+		// (x*C + y) / C = x  when y < C and nothing overflows (ranges)
+		if b.IsConst() && b.Val > 1 && a.Op == OpAdd {
+			for k := 0; k < 2; k++ {
+				m, y := a.Args[k], a.Args[1-k]
+				if m.Op == OpMul && m.Args[1].IsConst() && m.Args[1].Val == b.Val && y.RHi < b.Val {
+					x := m.Args[0]
+					hi, lo := bits.Mul64(x.RHi, b.Val)
+					sum, c := bits.Add64(lo, y.RHi, 0)
+					lim := mask(w)
+					if op == OpSDiv {
+						lim >>= 1
+					}
+					if hi == 0 && c == 0 && sum <= lim {
+						return x
+					}
+				}
+			}
+		}
 	case OpAdd:
 		if a.IsConst() && a.Val == 0 {
 			return b
@@ -488,12 +507,39 @@ func (tt *TermTable) Bin(op Op, a, b *Term) *Term {
 		if a.IsConst() {
 			a, b = b, a
 		}
+		if b.Op == OpNeg {
+			return tt.Bin(OpSub, a, b.Args[0])
+		}
+		if a.Op == OpNeg {
+			return tt.Bin(OpSub, b, a.Args[0])
+		}
 	case OpSub:
 		if b.IsConst() && b.Val == 0 {
 			return a
 		}
 		if a == b {
 			return tt.Const(0, w)
+		}
+		if b.Op == OpSub && b.Args[0] == a { // a - (a - x) = x
+			return b.Args[1]
+		}
+		if a.Op == OpAdd && a.Args[0] == b { // (b + x) - b = x
+			return a.Args[1]
+		}
+		if a.Op == OpAdd && a.Args[1] == b { // (x + b) - b = x
+			return a.Args[0]
+		}
+		if a.Op == OpSub && a.Args[0] == b { // (b - x) - b = -x
+			return tt.Neg(a.Args[1])
+		}
+		if b.Op == OpAdd && b.Args[0] == a { // a - (a + x) = -x
+			return tt.Neg(b.Args[1])
+		}
+		if b.Op == OpAdd && b.Args[1] == a { // a - (x + a) = -x
+			return tt.Neg(b.Args[0])
+		}
+		if b.Op == OpNeg { // a - (-x) = a + x
+			return tt.Bin(OpAdd, a, b.Args[0])
 		}
 		if b.IsConst() {
 			return tt.Bin(OpAdd, a, tt.Const(-b.Val, w))
@@ -628,6 +674,11 @@ func (tt *TermTable) Cmp(op Op, a, b *Term) *Term {
 	return tt.intern(&Term{Op: op, W: 0, Args: []*Term{a, b}})
 }
 
+// RawULt builds a <u b without any folding (used to state declared variable ranges).
+func (tt *TermTable) RawULt(a, b *Term) *Term {
+	return tt.intern(&Term{Op: OpULt, W: 0, Args: []*Term{a, b}})
+}
+
 func (tt *TermTable) BNot(a *Term) *Term {
 	if a.IsConst() {
 		return tt.Const(^a.Val, a.W)
@@ -641,6 +692,9 @@ func (tt *TermTable) BNot(a *Term) *Term {
 func (tt *TermTable) Neg(a *Term) *Term {
 	if a.IsConst() {
 		return tt.Const(-a.Val, a.W)
+	}
+	if a.Op == OpNeg {
+		return a.Args[0]
 	}
 	return tt.intern(&Term{Op: OpNeg, W: a.W, Args: []*Term{a}})
 }
